@@ -151,6 +151,7 @@ type Line struct {
 	Panic   bool                `json:"panic"`
 	Hang    bool                `json:"hang"`
 	Exit    bool                `json:"exit"`
+	Crash   bool                `json:"crash"` // the process was killed at an injected crash point
 	PanicMsg string             `json:"panicMsg,omitempty"`
 	Post    *State              `json:"post,omitempty"`
 	Gauges  map[string]Gauges   `json:"gauges,omitempty"`
